@@ -232,6 +232,9 @@ class _AnnToAssign(ast.NodeTransformer):
 def _normalise(tree: ast.AST) -> ast.AST:
     tree = _AnnToAssign().visit(tree)
     ast.fix_missing_locations(tree)
+    if os.environ.get("SA_NO_NORMAL") != "1":
+        from .normal import normalise
+        tree = normalise(tree)
     return tree
 
 
